@@ -63,14 +63,18 @@ Inductive sop :=
 | OGet (a : addr)
 | OList
 | OServe          (* Serve called: returns at once with ErrServerClosed, or starts serving *)
-| OClose.         (* Close: Serve (if running) stops all peers and returns ErrServerClosed *)
+| OClose          (* Close: Serve (if running) stops all peers and returns ErrServerClosed *)
+| OBreak.         (* a listener fails under a running Serve: it stops all peers and returns the listener error;
+                     the server is finished (a later Serve is refused) *)
 
 Inductive sout :=
 | SRes (r : sres)
 | SGet (c : option pcfg)
 | SList (l : list pcfg)
 | SServe (started : bool)
-| SClose (serve_returned : bool).
+| SServeBusy                        (* Serve while already serving: refused with an error, nothing changes *)
+| SClose (serve_returned : bool)
+| SBreak (serve_returned : bool).
 
 Definition server_step (s : server) (op : sop) : server * sout :=
   match op with
@@ -93,10 +97,14 @@ Definition server_step (s : server) (op : sop) : server * sout :=
   | OList => (s, SList (map (fun kv => fst (snd kv)) (s_peers s)))
   | OServe =>
       if s_closed s then (s, SServe false)
+      else if s_serving s then (s, SServeBusy)
       else (mkServer (s_peers s) true false (map fst (s_peers s)), SServe true)
   | OClose =>
       if s_serving s then (mkServer (s_peers s) false true [], SClose true)
       else (mkServer (s_peers s) false true (s_running s), SClose false)
+  | OBreak =>
+      if s_serving s then (mkServer (s_peers s) false true [], SBreak true)
+      else (s, SBreak false)
   end.
 
 Fixpoint server_run (s : server) (ops : list sop) : server * list sout :=
